@@ -4,6 +4,16 @@ import os, sys, json, time, glob, math, argparse, subprocess, tempfile, shutil
 from .util import VERIF_HOME, REPO, to_jsonable, from_jsonable, hash_case, use_repo
 from . import core
 
+def json_safe(o):
+    """Evidence files are strict JSON: non-finite floats inside sampled cases are written as text ('nan', 'inf', '-inf')."""
+    if isinstance(o, float):
+        return o if math.isfinite(o) else repr(o)
+    if isinstance(o, dict):
+        return {str(k): json_safe(v) for k, v in o.items()}
+    if isinstance(o, (list, tuple)):
+        return [json_safe(v) for v in o]
+    return o
+
 def eprint(*a):
     print(*a, file=sys.stderr, flush=True)
 
@@ -278,7 +288,7 @@ def main(argv=None):
         }
         os.makedirs(os.path.join(VERIF_HOME, "evidence"), exist_ok=True)
         with open(os.path.join(VERIF_HOME, "evidence", f"{prop_id}.json"), "w") as f:
-            json.dump(ev, f, indent=1, allow_nan=False, default=str)
+            json.dump(json_safe(ev), f, indent=1, allow_nan=False, default=str)
 
     # ---------------------------------------------------------------- verdict
     for name, d in sorted(per_sub.items()):
